@@ -79,6 +79,17 @@ ROOTS = {
                "inst": ["P[1]", "P[1].Q[2]", "P(1).Q(2)", "P[1].Q(m=2)", "P[2].Q[2]"],
                "same": [["P[1].Q[2]", "P(1).Q(2)", "P[1].Q(m=2)"]],
                "probes": ["P[1].Q[2].qc()", "P[2].Q[2].qc()", "P[1].c()"]},
+    # nested parametrised child whose parameter has the SAME name as the enclosing one (the inner value wins)
+    "nestedsame": {"spaces": {"P": {"formula": "lambda i, k=7: None", "refs": {"r2": 1}, "cells": CELLS_P,
+                                    "spaces": {"Q": {"formula": "lambda i: None",
+                                                     "cells": {"qc": "lambda: i * 10 + k"},
+                                                     "spaces": {"E": {"cells": {"ec": "lambda: i + 500"}}}}}}},
+                   "refs": {"G": 5},
+                   "inst": ["P[1]", "P[1].Q[5]", "P(1).Q(i=5)", "P[1].Q[6]", "P[2].Q[5]"],
+                   "same": [["P[1].Q[5]", "P(1).Q(i=5)"]],
+                   "distinct": [["P[1].Q[5]", "P[1].Q[6]"], ["P[1].Q[5]", "P[2].Q[5]"]],
+                   "probes": ["P[1].Q[5].qc()", "P[1].Q[6].qc()", "P[2].Q[5].qc()", "P[1].Q[5].E.ec()", "P[1].c()",
+                              "P[1].Q[5].i", "P[1].i"]},
     # same-named grandchildren under different children, and a child whose own child has the same name
     "grand": {"spaces": {"P": {"formula": "lambda i: None", "refs": {"r2": 1}, "cells": CELLS_P,
                                "spaces": {"B": {"spaces": {"C": {"cells": {"g": "lambda: i + 1000"}}}},
@@ -122,6 +133,9 @@ def alphabet(rootname):
     if rootname == "nested":
         ops += [py("m.P.Q.qc.formula = 'lambda: 88'"), py("m.P.Q.r3 = 9"), py("del m.P.Q"),
                 py("m.P.Q.formula = 'lambda m, n=0: None'"), py("del m.P[1].Q[2]")]
+    if rootname == "nestedsame":
+        ops += [py("m.P.Q.qc.formula = 'lambda: i * 100 + k'"), py("m.P.Q.formula = 'lambda i, j=0: None'"),
+                py("del m.P[1].Q[5]"), py("m.P.Q.E.ec.formula = 'lambda: i + 600'")]
     if rootname == "grand":
         ops = [o for o in ops if ".d" not in o["code"] and "c9" not in o["code"]]
         ops += [py("m.P.B.C.g.formula = 'lambda: i + 1001'"), py("m.P.Q.Q.g.formula = 'lambda: i + 4001'"),
